@@ -12,11 +12,15 @@
 //	abort                   API.ResizeAbort
 //	failsend <-|*|nodes>    from now on SendTo(ResizeInstruction) fails for these target nodes (csv; * = every node; - = none),
 //	                        so any subset of a job's sends - first, middle, last, several - can be made to fail
+//	hold <prewait|got>      arm a gate on the listener: it is held at handleNodeAction's log line "wait for jobResult"
+//	                        (job generated, run spawned, not yet receiving) resp. "received jobResult" (result received and
+//	                        run finished, completeCurrentJob not yet called) the next time it gets there; no mutex is held there
+//	release                 disarm the gate and let a held listener continue
 //
 // Every event is delivered in its own goroutine; the harness then waits until every goroutine of
 // the cluster is parked (runtime.Stack) and prints
 //
-//	<ret> st=<N|R|S|D> nodes=<csv> cur=<job|-> q=<queued actions> lis=<idle|wait|lock|gone>
+//	<ret> st=<N|R|S|D> nodes=<csv> cur=<job|-> q=<queued actions> lis=<idle|wait|hold|lock|gone>
 //	      jobs=<job>:<a|r><node>:<n|R|D|A>:<pending nodes '.'-separated|->;...  par=<handlers parked for good>
 //
 // ret: ok | err | refused (state gate) | panic | blocked (the handler never returned).
@@ -28,6 +32,7 @@ import (
 	"math/rand"
 	"os"
 	"path/filepath"
+	"reflect"
 	"regexp"
 	"runtime"
 	"sort"
@@ -80,6 +85,37 @@ type prop struct {
 	seq     []int64
 	parked  int
 	caseNo  int
+	holdAt  string        // armed listener gate ("" = none)
+	gateCh  chan struct{} // closed by release
+}
+
+// the log lines of handleNodeAction used as gates
+var gatePrefix = map[string]string{"prewait": "wait for jobResult", "got": "received jobResult"}
+
+// hasLoggerHook: the tree under test carries the logger shim (verif_c22b.go).
+func hasLoggerHook() bool {
+	_, ok := reflect.TypeOf(&pilosa.VerifC22Cluster{}).MethodByName("SetLogger")
+	return ok
+}
+
+// logGate is the coordinator's logger: it parks the calling goroutine (the listener) at an armed gate.
+func (p *prop) logGate(msg string) {
+	p.fmu.Lock()
+	at, ch := p.holdAt, p.gateCh
+	p.fmu.Unlock()
+	if at != "" && strings.HasPrefix(msg, gatePrefix[at]) {
+		vh.Count("listener-held-" + at)
+		<-ch
+	}
+}
+
+func (p *prop) releaseGate() {
+	p.fmu.Lock()
+	if p.gateCh != nil {
+		close(p.gateCh)
+	}
+	p.holdAt, p.gateCh = "", make(chan struct{})
+	p.fmu.Unlock()
 }
 
 func (p *prop) Rule() string {
@@ -222,6 +258,8 @@ func listenerPos(gs []gor) string {
 			continue
 		}
 		switch {
+		case strings.Contains(g.frames, "main.(*prop).logGate") && g.status == "chan receive":
+			return "hold"
 		case g.status == "select" && !strings.Contains(g.frames, "handleNodeAction"):
 			return "idle"
 		case g.status == "chan receive" && strings.Contains(g.frames, "handleNodeAction"):
@@ -403,6 +441,7 @@ func (p *prop) deliver(f func() error, gated bool) string {
 }
 
 func (p *prop) closeCase() {
+	p.releaseGate()
 	if p.cl != nil {
 		p.cl.Shutdown()
 		p.cl = nil
@@ -481,6 +520,10 @@ func (p *prop) execLine(l string) string {
 			return "err:new"
 		}
 		p.cl = cl
+		p.releaseGate()
+		if m := reflect.ValueOf(cl).MethodByName("SetLogger"); m.IsValid() {
+			m.Call([]reflect.Value{reflect.ValueOf(p.logGate)})
+		}
 		p.h.mu.Lock()
 		for s := 0; s < nKeys; s++ {
 			p.h.keyOf[uint64(cl.Partition("i", uint64(s)))] = s
@@ -529,6 +572,19 @@ func (p *prop) execLine(l string) string {
 		return p.deliver(func() error { return p.cl.Complete(id, nid(n), et) }, false)
 	case ws[0] == "abort" && len(ws) == 1:
 		return p.deliver(func() error { return p.cl.Abort() }, true)
+	case ws[0] == "hold" && len(ws) == 2 && gatePrefix[ws[1]] != "":
+		if !hasLoggerHook() {
+			return "err:no-logger-hook"
+		}
+		p.fmu.Lock()
+		p.holdAt = ws[1]
+		p.fmu.Unlock()
+		gs, quiet := p.waitQuiet()
+		return p.observe("ok", gs, quiet)
+	case ws[0] == "release" && len(ws) == 1:
+		p.releaseGate()
+		gs, quiet := p.waitQuiet()
+		return p.observe("ok", gs, quiet)
 	case ws[0] == "failsend" && len(ws) == 2:
 		set := map[string]bool{}
 		if ws[1] != "*" && ws[1] != "-" {
@@ -676,6 +732,59 @@ func genSendFailure(cr *vh.Rng) vh.Case {
 	return vh.Case{Lines: lines, Nontrivial: true}
 }
 
+// genListenerGate: the last completion (or an error, or an abort) lands, then something happens at a chosen
+// listener position - held before it starts receiving, or held between receiving the result and
+// completeCurrentJob -, then the listener runs on.
+func genListenerGate(cr *vh.Rng) vh.Case {
+	nm := cr.Range(2, 4)
+	members := []int{0}
+	for _, v := range cr.Perm(6) {
+		if len(members) < nm {
+			members = append(members, v+1)
+		}
+	}
+	var ms []string
+	for _, m := range members {
+		ms = append(ms, strconv.Itoa(m))
+	}
+	newNode := 7 + cr.Intn(3)
+	targets := append(append([]int(nil), members...), newNode)
+	lines := []string{"init " + strings.Join(ms, ",") + " " + genTable(cr)}
+	at := cr.PickS("got", "got", "got", "prewait")
+	lines = append(lines, "hold "+at, fmt.Sprintf("join %d", newNode))
+	finish := func(job int) {
+		for _, m := range targets {
+			lines = append(lines, fmt.Sprintf("complete %d %d ok", job, m))
+		}
+	}
+	switch cr.Intn(4) {
+	case 0, 1:
+		finish(0) // DONE is delivered (got: received and held; prewait: sits in the buffer)
+	case 2:
+		lines = append(lines, fmt.Sprintf("complete 0 %d err", targets[cr.Intn(len(targets))]))
+	case 3: // nothing yet
+	}
+	// what lands while the listener is held
+	switch cr.Intn(6) {
+	case 0, 1, 2:
+		lines = append(lines, "abort")
+	case 3:
+		lines = append(lines, fmt.Sprintf("complete 0 %d err", targets[cr.Intn(len(targets))]), "abort")
+	case 4:
+		lines = append(lines, fmt.Sprintf("join %d", 1+cr.Intn(9)))
+	case 5:
+		lines = append(lines, "abort", fmt.Sprintf("complete 0 %d ok", newNode))
+	}
+	lines = append(lines, "release")
+	if cr.Bool() {
+		finish(0)
+	}
+	lines = append(lines, fmt.Sprintf("complete 0 %d err", newNode), fmt.Sprintf("join %d", newNode))
+	finish(1)
+	vh.Count("gen-listener-gate-case")
+	return vh.Case{Lines: lines, Nontrivial: true}
+}
+
 func (p *prop) Gen(r *vh.Rng, tier string, n int) []vh.Case {
 	var cases []vh.Case
 	for k := 0; k < n; k++ {
@@ -694,6 +803,10 @@ func (p *prop) Gen(r *vh.Rng, tier string, n int) []vh.Case {
 		}
 		if cr.Chance(1, 5) {
 			cases = append(cases, genSendFailure(cr))
+			continue
+		}
+		if hasLoggerHook() && cr.Chance(1, 5) {
+			cases = append(cases, genListenerGate(cr))
 			continue
 		}
 		lines := []string{"init " + strings.Join(ms, ",") + " " + genTable(cr)}
